@@ -7,7 +7,7 @@
   pkts <h/len,h/len,...>     feed packets (header byte / payload length) to the dispatcher; reply = the observable trace
   match <port> <pm> <ch> <cm> <hdr>   the match condition alone
   acts: comma separated, `-` = none;  a:port:pm:ch:cm:cb  ad:cb:port:ch  ap:port:cb   (add header / header with
-  default masks / port)   r:.. rd:.. rp:..  (remove)   A:cb  R:cb  (all-packet add/remove)   x  (raise)
+  default masks / port)   r:.. rd:.. rp:..  (remove)   A:cb  R:cb  (all-packet add/remove)   x  (raise)   hp:port  hc:chan  (the callback rewrites port / channel of the packet object it was given)
 -/
 import CfVerif.Base.Proto
 import CfVerif.Model.C07
@@ -29,6 +29,8 @@ def parseAct? (w : String) : Option Act :=
   | ["A", cb] => do pure (.addAll (← cb.toNat?))
   | ["R", cb] => do pure (.removeAll (← cb.toNat?))
   | ["x"] => some .raise
+  | ["hp", p] => do pure (.setPort (← p.toNat?))
+  | ["hc", c] => do pure (.setChan (← c.toNat?))
   | _ => none
 
 def parseActs? (s : String) : Option (List Act) :=
@@ -69,6 +71,7 @@ def render : List Ev → Bool → List String
   | .died :: es, p => "D" :: render es p
   | .added _ :: es, p => render es p
   | .removed _ :: es, p => render es p
+  | .mutated :: es, p => render es p
 
 def step (d : DSt) (ws : List String) : DSt × String :=
   match ws with
